@@ -27,6 +27,7 @@ structure Spec where
   items : List RawItem
   hdrs : List Header
   resetAt : Option Nat
+  hold : Bool
 
 /-- deterministic body content (same formula as `content_byte` in c08.rs) -/
 def contentByte (k j : Nat) : UInt8 := UInt8.ofNat ((j * 7 + k * 13 + j / 251) % 256)
@@ -67,13 +68,14 @@ def parseHdrs (s : String) : Option (List Header) :=
     | n :: v :: rest => some (n, joinWith "=" (v :: rest))
     | _ => none
 
-def parseClient (s : String) : Option (Option Nat) :=
-  (s.splitOn ".").foldlM (fun (acc : Option Nat) (t : String) =>
+def parseClient (s : String) : Option (Option Nat × Bool) :=
+  (s.splitOn ".").foldlM (fun (acc : Option Nat × Bool) (t : String) =>
     let arg := ((t.drop 1).toString).toNat?
     if t == "a" then some acc
+    else if t == "h" then some (acc.1, true)
     else if t.startsWith "b" || t.startsWith "d" then arg.map fun _ => acc
-    else if t.startsWith "r" then arg.map some
-    else none) none
+    else if t.startsWith "r" then arg.map fun r => (some r, acc.2)
+    else none) (none, false)
 
 def parseSpec (tok : String) : Option Spec :=
   match tok.splitOn ":" with
@@ -85,8 +87,8 @@ def parseSpec (tok : String) : Option Spec :=
     let kind ← parseKind kd
     let items ← parseItems its
     let hdrs ← parseHdrs hs
-    let resetAt ← parseClient cl
-    some ⟨head, status, kind, items, hdrs, resetAt⟩
+    let cl ← parseClient cl
+    some ⟨head, status, kind, items, hdrs, cl.1, cl.2⟩
   | _ => none
 
 structure Case where
@@ -137,6 +139,15 @@ def bodyOf (k : Nat) (s : Spec) : List Item :=
 def caps (w len : Nat) : List CapAns :=
   (List.range (len + 1)).map fun i => .cap (1 + (i * 37 + w) % w + len / 50)
 
+/-- the peer never reopens the window: grants add up to `w`, then no answer any more -/
+def heldCaps : Nat → List Item → List CapAns
+  | _, [] => []
+  | _, .err :: _ => []
+  | b, .chunk bs :: items =>
+    if bs.isEmpty then heldCaps b items
+    else if b == 0 then []
+    else .cap (min bs.length b) :: heldCaps (b - min bs.length b) items
+
 def runStream (w : Nat) (raw : Bool) (k : Nat) (s : Spec) : String :=
   let body := bodyOf k s
   let len := (bodyBytes body).length
@@ -151,7 +162,7 @@ def runStream (w : Nat) (raw : Bool) (k : Nat) (s : Spec) : String :=
     | none => false
   let sched := match s.resetAt with
     | some r => if resets then [.cap (r - 1), .closed] else caps w len
-    | none => caps w len
+    | none => if s.hold then heldCaps w body else caps w len
   let wire := handleResponse "@" res s.head body true sched
   let pre := toString k ++ "="
   match wire.head with
@@ -167,7 +178,7 @@ def runStream (w : Nat) (raw : Bool) (k : Nat) (s : Spec) : String :=
       | .closed => hd ++ (if abortTag == "" then "rst" else abortTag)
       | .bodyErr | .sendErr => hd ++ (if abortTag == "" then "err" else abortTag)
       | .headErr => pre ++ "rst"
-      | .stalled => pre ++ "hang"
+      | .stalled => if s.hold then hd ++ "held" else pre ++ "hang"
 
 def runCase (c : Case) : String :=
   let rec go : Nat → List Spec → List String
